@@ -429,6 +429,10 @@ class TestPki:
         self.client_ctx.check_hostname = False
         self.client_ctx.verify_mode = ssl.CERT_NONE
         self.client_ctx.set_alpn_protocols(["http/1.1"])
+        self.client_ctx_h2 = ssl.SSLContext(ssl.PROTOCOL_TLS_CLIENT)
+        self.client_ctx_h2.check_hostname = False
+        self.client_ctx_h2.verify_mode = ssl.CERT_NONE
+        self.client_ctx_h2.set_alpn_protocols(["h2", "http/1.1"])
         atexit.register(self.close)
 
     @classmethod
@@ -448,14 +452,14 @@ class TestPki:
 class _Tls:
     """one ssl.MemoryBIO endpoint"""
 
-    def __init__(self, server_side: bool, sni=None):
+    def __init__(self, server_side: bool, sni=None, h2=False):
         import ssl
         pki = TestPki.get()
         self.inc, self.out = ssl.MemoryBIO(), ssl.MemoryBIO()
         if server_side:
             self.obj = pki.server_ctx.wrap_bio(self.inc, self.out, server_side=True)
         else:
-            self.obj = pki.client_ctx.wrap_bio(self.inc, self.out, server_hostname=sni)
+            self.obj = (pki.client_ctx_h2 if h2 else pki.client_ctx).wrap_bio(self.inc, self.out, server_hostname=sni)
         self.done = False
         self.error = None
 
@@ -551,9 +555,10 @@ class HttpEndpoint:
 class TlsClient:
     """TLS client on the driver's client connection (optionally nested inside an established tunnel)."""
 
-    def __init__(self, d: Driver, conn, sni: str):
+    def __init__(self, d: Driver, conn, sni: str, h2: bool = False):
+        """h2: offer ALPN h2 + http/1.1 (otherwise http/1.1 only); see alpn() after the handshake"""
         self.d, self.conn = d, conn
-        self.tls = _Tls(False, sni)
+        self.tls = _Tls(False, sni, h2)
         self.pos = len(d.out(conn))
         self.plain_in = b""
 
@@ -577,3 +582,44 @@ class TlsClient:
 
     def send(self, plain: bytes):
         self._exchange(self.tls.encrypt(plain))
+
+    def alpn(self):
+        return self.tls.obj.selected_alpn_protocol()
+
+
+class H2Client:
+    """HTTP/2 client (independent hyper-h2 connection, lib/h2peer.py) speaking through a TlsClient"""
+
+    def __init__(self, t: "TlsClient"):
+        from h2peer import H2Peer
+        self.t = t
+        self.peer = H2Peer(client_side=True)
+        self.pos = len(t.plain_in)
+        self.peer.start()
+        self._pump()
+        self.next_sid = 1
+
+    def _pump(self):
+        for _ in range(10):
+            out = self.peer.take()
+            if out:
+                self.t.send(out)
+            new = self.t.plain_in[self.pos:]
+            self.pos += len(new)
+            if new:
+                self.peer.receive(new)
+            elif not out:
+                return
+
+    def request(self, headers, body=b""):
+        """-> stream id; headers: list of (bytes, bytes) incl. pseudo-headers, sent as given (no validation)"""
+        sid = self.next_sid
+        self.next_sid += 2
+        self.peer.send_headers(sid, headers, end_stream=not body)
+        if body:
+            self.peer.send_data(sid, body, end_stream=True)
+        self._pump()
+        return sid
+
+    def response(self, sid):
+        return self.peer.streams.get(sid)
